@@ -253,7 +253,7 @@ theorem popped_of_adds {s c : Scope} {iso : Bool} {d : Eff} (hf : Fresh s iso) (
 
 /-- The effect of a finished scope on its parent (`Scope.finalize`). -/
 def Eff.exported (iso : Bool) (d : Eff) : Eff :=
-  if iso then { read := d.read.diff d.bound, annotations := d.annotations.diff d.bound }
+  if iso then { read := d.read.diff ((d.bound.diff d.nonlocals).diff d.globals), annotations := d.annotations.diff d.bound }
   else { d with deleted := [] }   -- `finalize` does not export `deleted`
 
 theorem finalizeInto_adds {c p : Scope} {iso : Bool} {d : Eff} (hc : Popped c iso d) :
@@ -262,7 +262,7 @@ theorem finalizeInto_adds {c p : Scope} {iso : Bool} {d : Eff} (hc : Popped c is
   | true =>
     have hi : c.isolated = true := hc.isolated
     refine ⟨?_, ?_, ?_, ?_, ?_, ?_, ?_, ?_, ?_, ?_, ?_, ?_⟩ <;>
-      simp [Scope.finalizeInto, hi, Eff.exported, hc.read, hc.bound, hc.annotations]
+      simp [Scope.finalizeInto, Scope.passedOn, hi, Eff.exported, hc.read, hc.bound, hc.annotations, hc.nonlocals, hc.globals]
   | false =>
     have hi : c.isolated = false := hc.isolated
     refine ⟨?_, ?_, ?_, ?_, ?_, ?_, ?_, ?_, ?_, ?_, ?_, ?_⟩ <;>
